@@ -5,7 +5,7 @@ from analysis import (Prov, Guards, fmt, fmt_short, walk, roots, short, canon, l
                       must_pass, const_int_of, writes_into, _lin_add)
 from aff import Aff, Fact
 from facts import AnchorError, strip_closure
-from harness import Rule
+from harness import Rule, guarded
 from c01 import bool_pass_edges
 import c13
 
@@ -374,5 +374,5 @@ def r4(ctx):
 
 
 def run(ctx):
-    a, b, c = r1_r2_r3(ctx)
-    return [a, b, c, r4(ctx)]
+    G = lambda l, f, *a: guarded("C06." + l, f, ctx, *a)
+    return G("R1-R3", r1_r2_r3) + G("R4", r4)
